@@ -16,6 +16,16 @@ pub struct Named {
     b: LTerm,
 }
 
+#[compound]
+pub struct Slot(Option<P3>, LTerm);
+
+pub fn mk_slot(inner: Option<(LT, LT, LT)>, t: LT) -> LT {
+    match inner {
+        Some((a, b, c)) => Slot_compound::_InnerSlot(Some(Into::<P3<DU, DE>>::into(P3_compound::_InnerP3(a, b, c))), t).into(),
+        None => Slot_compound::_InnerSlot(None, t).into(),
+    }
+}
+
 /// The instrumented `User` type every harness run uses: it counts the constraint-lifecycle hook calls
 /// and the extensions passed to `process_extension`; it never changes the search (C22 observes it,
 /// every other property is indifferent to it).
@@ -92,6 +102,7 @@ pub fn arity(tag: usize) -> usize {
         0 => 2,
         1 => 3,
         2 => 2,
+        3 => 2,
         _ => 2,
     }
 }
@@ -275,6 +286,7 @@ pub fn rename_hidden(terms: &[T], nvars: usize) -> (Vec<T>, usize) {
 }
 
 /// A table of real logic variables for one case.
+#[derive(Clone)]
 pub struct Vars {
     pub v: Vec<LT>,
 }
@@ -304,6 +316,19 @@ impl Vars {
                 let h = self.build(h);
                 let tl = self.build(tl);
                 LT::cons(h, tl)
+            }
+            T::Comp(4, _) => LT::empty_list(), // an Option object is not a term on its own (only as a Slot field)
+            T::Comp(3, args) => {
+                // `Slot(Option<P3>, LTerm)`: the first field is `comp4 []` (None) or `comp4 [comp1 [a, b, c]]` (Some)
+                let inner = match &args[0] {
+                    T::Comp(4, k) if k.len() == 1 => match &k[0] {
+                        T::Comp(1, abc) if abc.len() == 3 => Some((self.build(&abc[0]), self.build(&abc[1]), self.build(&abc[2]))),
+                        _ => None,
+                    },
+                    _ => None,
+                };
+                let t = self.build(&args[1]);
+                mk_slot(inner, t)
             }
             T::Comp(tag, args) => {
                 let a: Vec<LT> = args.iter().map(|x| self.build(x)).collect();
@@ -360,23 +385,30 @@ impl<'a> Reader<'a> {
                 let tl = self.read(tl);
                 T::cons(h, tl)
             }
-            LTermInner::Compound(obj) => {
-                let tag = match obj.type_name() {
-                    "P3" => 1,
-                    "Named" => 2,
-                    _ => 0,
-                };
-                let kids: Vec<T> = obj
-                    .children()
-                    .map(|c| match c.as_term() {
-                        Some(t) => self.read(t),
-                        None => T::Str(98),
-                    })
-                    .collect();
-                T::Comp(tag, kids)
-            }
+            LTermInner::Compound(obj) => self.read_obj(obj.as_ref()),
             _ => T::Str(97),
         }
+    }
+}
+
+impl<'a> Reader<'a> {
+    /// a compound object: its type and its children (terms, or nested compound objects such as an `Option` field)
+    pub fn read_obj(&mut self, obj: &dyn CompoundObject<DU, DE>) -> T {
+        let tag = match obj.type_name() {
+            "P3" => 1,
+            "Named" => 2,
+            "Slot" => 3,
+            "Some" | "None" => 4,
+            _ => 0,
+        };
+        let kids: Vec<T> = obj
+            .children()
+            .map(|c| match c.as_term() {
+                Some(t) => self.read(t),
+                None => self.read_obj(c),
+            })
+            .collect();
+        T::Comp(tag, kids)
     }
 }
 
